@@ -460,6 +460,25 @@ def X_execute_task_tail(ctx):
             somes = [x for x in p.events[k:k + 4] if option_fact(x) and option_fact(x)[1] == 'Some' and strip(option_fact(x)[0]) == strip(getm[0].d['result'])]
             if somes and not [x for x in p.events[k:k + 10] if x.kind == 'call' and x.d['callee'].endswith('::remove')]:
                 bad.append(p)
+    # ... and the scan happens whenever there IS a previous result: no other condition may stand between "a previous incarnation
+    # published something" and "what it published is compared with the new write set"
+    unscanned = []
+    n_prev = 0
+    for p in att:
+        ok_arm = [a for a in p.events if a.kind == 'atom' and a.d['term'][0] == 'discr' and mentions_field(a.d['term'][1], 'IncarnationExecution.result') and a.d['outcome'] == 'Ok']
+        if not ok_arm or p.end != 'return':
+            continue
+        prev = [of for of in (option_fact(a) for a in p.events if a.kind == 'atom') if of and of[1] in ('Some', 'None') and mentions_field(of[0], 'Scheduler.tx_results')]
+        if not prev or prev[0][1] != 'Some':
+            continue
+        n_prev += 1
+        scans = [e for e in p.events if e.kind == 'call' and ((e.d['callee'].endswith('::next') and e.d['args'] and mentions_field(e.d['args'][0], 'TransactionResult.write_set'))
+                                                             or (norm_callee(e.d['callee']).endswith('::difference') and mentions_field(e.d['args'][0], 'TransactionResult.write_set')))]
+        if not scans:
+            unscanned.append(p)
+    ctx.ob('X1', f, 'previous-write-set-scanned-whenever-there-is-one', n_prev >= 1 and not unscanned,
+           f'success paths with a previous result={n_prev}, of which {len(unscanned)} never iterate its write set', site=f.loc(f.b['lo']),
+           what='every successful re-execution walks the previous incarnation\'s write set (to retire the entries it no longer writes); skipping the walk under any further condition leaves values in MV memory that in-order execution never produced')
     ctx.count('X1.stale-removal-paths', rem_paths)
     ctx.ob('X1', f, 'stale-write-removal-present', rem_paths >= 1 and not bad_rem,
            f'removal paths={rem_paths}; ' + '; '.join(f'{site(f, e)} removal of an entry whose location was not shown to be in previous∖new write set, or key is not own txid' for e in bad_rem[:3]),
